@@ -156,6 +156,23 @@ def run(ck):
     fn = ck.path("ops_broker.txt")
     model = ck.lean_run("C11", fn)
     _judge(ck, "broker", ops, meta, impl, model)
+    # ---------------- broker, pipelined: every advertised (key, version) back to back on ONE real connection loop
+    for mode in [0, 1, 2 + ck.rng.below(1 << 30)] + ([] if ck.quick() else [2 + ck.rng.below(1 << 30) for _ in range(6)]):
+        pseed = ck.rng.next() % (1 << 62)
+        rc, out, err = ck.run_bin(bins["b"], args=["pipe", str(pseed), str(mode)], env={"VERIF_HARNESS": "C11"}, timeout=180)
+        line = (out.strip().split("\n") or [""])[-1]
+        pop = "pipe %d %d" % (pseed, mode)
+        ck.count("broker-pipe:" + " ".join(line.split()[:3]))
+        if line.startswith("pipe ok"):
+            ck.cov["evaluations"] += int(line.split("replies=")[1].split()[0])
+            ck.case(pop, sample={"op": pop, "impl": line})
+        elif line.startswith("pipe mismatch"):
+            ck.violation("pipelined-request-" + line.split()[2],
+                         "requests for every advertised (key, version) written back to back on one connection (%s): %s" % (
+                             {0: "a single write", 1: "one write per frame"}.get(mode, "chunks ignoring frame boundaries"), line[14:]),
+                         {"ops": [pop], "who": "broker-pipe", "actual": line})
+        else:
+            ck.violation("handler-panic", "the pipelined broker scenario died: " + (err[-300:] or line), {"ops": [pop], "who": "broker-pipe", "actual": line})
     # ---------------- broker, concurrent: one shared handler, GOMAXPROCS goroutines, same API key at mixed versions
     cseed, cms = ck.rng.next() % (1 << 62), (1500 if ck.quick() else 10000)
     rc, out, err = ck.run_bin(bins["b"], args=["conc", str(cseed), str(cms)], env={"VERIF_HARNESS": "C11"}, timeout=180)
@@ -259,6 +276,16 @@ def replay(ck, path):
         return
     who = rep.get("who", "broker")
     ops = rep["ops"]
+    if who == "broker-pipe":
+        _, seed, mode = ops[0].split()
+        rc, out, err = ck.run_bin(st["bins"]["b"], args=["pipe", seed, mode], env={"VERIF_HARNESS": "C11"}, timeout=180)
+        line = (out.strip().split("\n") or [""])[-1]
+        print("  %s -> %s" % (ops[0], line))
+        ck.case(ops[0], sample={"op": ops[0], "impl": line})
+        if not line.startswith("pipe ok"):
+            ck.violation(rep.get("fingerprint", "pipelined-request-no-reply"), rep.get("what", line), {"ops": ops, "who": who, "actual": line})
+        ck.cov["distinct_nontrivial"] = max(ck.cov["distinct_nontrivial"], 2)
+        return
     if who == "broker-conc":
         _, seed, ms = ops[0].split()
         for attempt in range(3):
